@@ -23,6 +23,7 @@ func init() {
 		},
 		Run: runC26,
 		Controls: []Control{
+			{Name: "client-map-handed-out-live", File: "routingtable/client_manager.go", Old: "// GetOptions gets the options for a registered client\n", New: "func (c *ClientManager) ClientsWithOptions() map[RouteTableClient]ClientOptions {\n\tc.mu.RLock()\n\tdefer c.mu.RUnlock()\n\n\treturn c.clients\n}\n\n// GetOptions gets the options for a registered client\n", Expect: "guarded-reference-stays-inside"},
 			{Name: "refactor-explicit-unlocks", Silent: true, File: "protocols/bgp/server/peer.go", Old: "func (p *peer) singleFSM() *FSM {\n\tp.fsmsMu.Lock()\n\tdefer p.fsmsMu.Unlock()\n\n\tif len(p.fsms) != 1 {\n\t\treturn nil\n\t}\n\n\treturn p.fsms[0]\n}", New: "func (p *peer) singleFSM() *FSM {\n\tp.fsmsMu.Lock()\n\tif len(p.fsms) != 1 {\n\t\tp.fsmsMu.Unlock()\n\t\treturn nil\n\t}\n\n\tfsm := p.fsms[0]\n\tp.fsmsMu.Unlock()\n\treturn fsm\n}"},
 			{Name: "fsm-list-read-unlocked", File: "protocols/bgp/server/peer.go", Old: "func (p *peer) singleFSM() *FSM {\n\tp.fsmsMu.Lock()\n\tdefer p.fsmsMu.Unlock()\n", New: "func (p *peer) singleFSM() *FSM {\n", Expect: "guarded-by"},
 			{Name: "locrib-replacepath-read-lock", File: "routingtable/locRIB/loc_rib.go", Old: "func (a *LocRIB) ReplacePath(pfx *net.Prefix, oldPath *route.Path, newPath *route.Path) {\n\ta.mu.Lock()\n\tdefer a.mu.Unlock()", New: "func (a *LocRIB) ReplacePath(pfx *net.Prefix, oldPath *route.Path, newPath *route.Path) {\n\ta.mu.RLock()\n\tdefer a.mu.RUnlock()", Expect: "table-mutation-under-write-lock"},
@@ -171,6 +172,42 @@ func runC26(c *core.Ctx) {
 			})
 		}
 		c.Check(n >= 2, "guarded-by", name+" accesses found", token.NoPos, fmt.Sprintf("found %d accesses to %s: the row matches nothing", n, name))
+		// a guarded map or slice must not leave the critical section by reference: a method that returns the field
+		// itself (or a plain alias of it) hands its caller the live container after the lock was released
+		switch fv.Type().Underlying().(type) {
+		case *types.Map, *types.Slice:
+			esc := 0
+			for _, f := range lp.Fns {
+				if _, ok := row.Exempt[f.Name()]; ok || strings.HasPrefix(f.Decl.Name.Name, "_") {
+					continue
+				}
+				ast.Inspect(f.Decl.Body, func(nd ast.Node) bool {
+					rs, ok := nd.(*ast.ReturnStmt)
+					if !ok {
+						return true
+					}
+					for _, r := range rs.Results {
+						e := core.Unparen(r)
+						if id, isId := e.(*ast.Ident); isId {
+							if o := core.ObjOf(f.Pkg, id); o != nil {
+								if defs := core.DefsOf(f, o); len(defs) == 1 {
+									e = core.Unparen(defs[0])
+								}
+							}
+						}
+						if core.FieldOf(f.Pkg, e) == fv {
+							esc++
+							c.Fail("guarded-reference-stays-inside", fmt.Sprintf("%s returns %s itself", f.Name(), name), rs.Pos(),
+								fmt.Sprintf("%s returns the %s-guarded container %s by reference: the caller iterates or indexes the live map/slice after the lock was released while registrations modify it under the lock — an unsynchronized concurrent read/write", f.Name(), short(lock), name))
+						}
+					}
+					return true
+				})
+			}
+			if esc == 0 {
+				c.Hold("guarded-reference-stays-inside", name+" is never returned by reference", token.NoPos, "no method returns the guarded container itself")
+			}
+		}
 	}
 
 	// (2) underscore convention --------------------------------------------------------------------------------------------
